@@ -67,13 +67,15 @@ func (c06) Gen(r *core.Rng, tier string, idx int) *core.Trace {
 	}
 	t.Cfg["collide"] = int64(r.Intn(2))
 	t.Cfg["twins"] = int64(r.PickW(55, 45))
+	t.Cfg["longnames"] = int64(r.PickW(60, 40))
 	t.Cfg["symlinks"] = int64(r.Intn(2))
 	t.CfgS["volid"] = core.PickOf(r, "", "MYVOL", "A_LONGER_VOLUME_ID_0123456789", "X")
 	return t
 }
 
 var isoNames = []string{"README.TXT", "data.bin", "Makefile", "long-file-name-with-many-chars.extension", "UPPER", "a.b", "index.html", "x", "notes.md", "mixed.Case.Name", "_under", "file with space.txt"}
-var isoCollide = []string{"collision-name-aaaa.txt", "collision-name-bbbb.txt", "collision-name-cccc.txt", "COLLISIO.TXT", "collision.text", "collision.texu"}
+// names that collide after the 8.3 mapping, and siblings whose own name equals a name the collision resolution generates
+var isoCollide = []string{"collision-name-aaaa.txt", "collision-name-bbbb.txt", "collision-name-cccc.txt", "COLLISIO.TXT", "collision.text", "collision.texu", "collisi1.txt", "collisi2.txt", "collis10.txt", "COLLISI3.TXT"}
 
 func c06Tree(t *core.Trace) []imgEntry {
 	tag := uint64(t.I("tag"))
@@ -148,6 +150,28 @@ func c06Tree(t *core.Trace) []imgEntry {
 		for i := int64(0); i < bd; i++ {
 			p := fmt.Sprintf("many/entry-number-%04d.dat", i)
 			tree = append(tree, mk(p, int64(len(p))+6+i%7))
+		}
+	}
+	if t.I("longnames") == 1 {
+		// names whose Rock Ridge NM entry does not fit in the directory record: several continuation areas per directory
+		dirs2 := []string{"", "longdir"}
+		tree = append(tree, imgEntry{Path: "longdir", Dir: true})
+		for _, d := range dirs2 {
+			lens := []int{132, 140, 200, 250}
+			if m := t.I("mode") % 4; m == 2 || m == 3 {
+				// a Joliet record holds at most 110 characters; beyond that Finalize refuses (every tenth run keeps the long ones to see the refusal)
+				if tag%10 != 0 {
+					lens = []int{65, 100, 109, 110}
+				}
+			}
+			for i, ln := range lens {
+				name := fmt.Sprintf("%c%d-", 'k'+i, ln) + strings.Repeat(string(rune('a'+i)), ln-8) + ".bin"
+				p := name
+				if d != "" {
+					p = d + "/" + name
+				}
+				tree = append(tree, mk(p, int64(len(p))+6+int64(i)*1000))
+			}
 		}
 	}
 	if t.I("twins") == 1 {
